@@ -76,6 +76,8 @@ pub fn run_plan<T: HCfg>(plan: &Value, detail: u8, emit: &mut dyn FnMut(&Value))
         .cloned()
         .unwrap_or_default();
     let mut forge_n = 0u64;
+    // > 0: P2P sessions call advance_frame_with_wait_timeout(wait_ms) instead of advance_frame
+    let wait_ms = pu(plan, "wait_ms", 0);
     // forge only into sessions that are Running (their magic filter is armed for every endpoint)
     let forge_after_sync = forge.get("after_sync").and_then(|v| v.as_bool()).unwrap_or(false);
     // optional fixed set of (claimed) source addresses
@@ -358,7 +360,23 @@ pub fn run_plan<T: HCfg>(plan: &Value, detail: u8, emit: &mut dyn FnMut(&Value))
                 if p_poll > 0.0 && rng.gen::<f64>() < p_poll {
                     steps.push(json!({"a":"poll","p":p}));
                 }
-                steps.push(json!({"a":"tick","p":p,"in":ins}));
+                if wait_ms > 0 {
+                    // advance_frame_with_wait_timeout: the packets due at this peer within the wait
+                    // arrive while the call spins
+                    let t0 = w.now();
+                    let all: Vec<_> = heap.drain().collect();
+                    let mut arr: Vec<Value> = Vec::new();
+                    for Reverse((t, sq, from, to, id)) in all {
+                        if to == p as Addr && t > t0 && t <= t0 + wait_ms {
+                            arr.push(json!([t - t0, from, id, true]));
+                        } else {
+                            heap.push(Reverse((t, sq, from, to, id)));
+                        }
+                    }
+                    steps.push(json!({"a":"tick","p":p,"in":ins,"wait":wait_ms,"arr":arr}));
+                } else {
+                    steps.push(json!({"a":"tick","p":p,"in":ins}));
+                }
             } else {
                 steps.push(json!({"a":"tick","p":p}));
             }
@@ -369,7 +387,22 @@ pub fn run_plan<T: HCfg>(plan: &Value, detail: u8, emit: &mut dyn FnMut(&Value))
                 steps.push(json!({"a":"ev","p":p}));
             }
             for st in steps {
-                emit(&w.step(&st));
+                let l = w.step(&st);
+                emit(&l);
+                // packets that did not arrive during a wait (the call returned earlier) are still in flight
+                if let Some(planned) = st.get("arr").and_then(|v| v.as_array()) {
+                    let done: Vec<u64> = l["arr"]
+                        .as_array()
+                        .map(|a| a.iter().filter_map(|x| x[3].as_u64()).collect())
+                        .unwrap_or_default();
+                    for x in planned {
+                        let id = x[2].as_u64().unwrap_or(0);
+                        if !done.contains(&id) {
+                            hseq += 1;
+                            heap.push(Reverse((w.now(), hseq, x[1].as_u64().unwrap_or(0) as Addr, p as Addr, id)));
+                        }
+                    }
+                }
                 // fate of the packets this step sent
                 let mut sent: Vec<(u64, Addr, Addr, bool)> =
                     std::mem::take(&mut w.net.borrow_mut().tx_ids);
